@@ -208,6 +208,8 @@ def run_stream(spec, prop, schema):
             col.count("triples_under_all_282x3")
         else:
             cfgs = [(c, variants[(k + j) % 3]) for j, c in enumerate(covering_configs(r, spec["cfgs"]))]
+        if cls == "long_notebook" and len(cfgs) > 3:
+            cfgs = cfgs[:3]          # ~1 s per merge: three configurations per long notebook
         for cfg, variant in cfgs:
             merge_case(col, paths, cls, b, l, rm, info, cfg, variant, schema, prop)
         if schema and k % 8 == 0:
